@@ -438,3 +438,32 @@ package dnsforward
 //@   ensures blocked-answered-locally: rc == resultCodeSuccess && old(dctx.proxyCtx.Res) == nil && dctx.result != nil && dctx.result.IsFiltered && !((dctx.result.Reason == filtering.Rewritten || dctx.result.Reason == filtering.RewrittenRule || dctx.result.Reason == filtering.FilteredSafeSearch) && dctx.result.CanonName != "" && len(dctx.result.IPList) == 0) ==> dctx.proxyCtx.Res != nil && fresh(dctx.proxyCtx.Res)
 //@   ensures already-answered: old(dctx.proxyCtx.Res) != nil ==> rc == resultCodeSuccess && dctx.proxyCtx.Res == old(dctx.proxyCtx.Res)
 //@   modifies *
+
+// ---- C08: the address is anonymised once, before the log / statistics decisions and records; a query the log
+// (statistics) declines is not handed to it ----
+//@ ghost var okLog bool
+//@ ghost var okCount bool
+//@ func (s *Server) shouldLog(host string, qt uint16, cl uint16, ids []string) (ok bool)
+//@   property C08
+//@   ghost at return: okLog = ok
+//@   modifies *
+//@ func (s *Server) shouldCountStat(host string, qt uint16, cl uint16, ids []string) (ok bool)
+//@   property C08
+//@   ghost at return: okCount = ok
+//@   modifies *
+//@ func (s *Server) logQuery(dctx *dnsContext, ip net.IP, processingTime time.Duration)
+//@   trusted
+//@   modifies okLog
+//@ func (s *Server) updateStats(dctx *dnsContext, clientIP string, processingTime time.Duration)
+//@   trusted
+//@   modifies okCount
+//@ func (s *Server) processQueryLogsAndStats(dctx *dnsContext) (rc resultCode)
+//@   property C08
+//@   requires dctx.proxyCtx != nil && dctx.proxyCtx.Req != nil && len(dctx.proxyCtx.Req.Question) > 0 && s.anonymizer != nil
+//@   requires !held(s.serverLock) && !rheld(s.serverLock)
+//@   callsite (net.IP).String(ip) requires anonymised-first: anonymised[arrayOf(ip)]
+//@   callsite (*github.com/AdguardTeam/AdGuardHome/internal/dnsforward.Server).logQuery(d, ip, t) requires only-if-wanted: okLog && anonymised[arrayOf(ip)]
+//@   callsite (*github.com/AdguardTeam/AdGuardHome/internal/dnsforward.Server).updateStats(d, ipStr, t) requires only-if-wanted: okCount
+//@   callsite (*github.com/AdguardTeam/AdGuardHome/internal/dnsforward.Server).shouldLog(host, qt, cl, ids) requires normalised-host: host == aghnet.NormalizeDomain(old(dctx.proxyCtx.Req.Question[0].Name))
+//@   callsite (*github.com/AdguardTeam/AdGuardHome/internal/dnsforward.Server).shouldCountStat(host, qt, cl, ids) requires normalised-host: host == aghnet.NormalizeDomain(old(dctx.proxyCtx.Req.Question[0].Name))
+//@   modifies *
